@@ -7,125 +7,55 @@ include!("texts.rs");
 include!("jsonsym.rs");
 include!("img.rs");
 
-//@ harness: c02_prior_buffer_compact c02_prior_buffer_deferred
-//@ tier: quick
-//@ timeout: 1800
-//@ mem: 14
-//@ unwindset: read_sig=66; memchr=12; parse_json_event=12; json_unescape=40; read_id=34; read_pubkey=34; read_hex=66; memcmp.0=34; copy_text=600; read_u64=22; read_kind=8; burn_string=26; eat_whitespace=6; burn_number=12; patch_site=24; digits=24; fpatch=24; put_bytes=70; enc_tags=6
-//@ encodes: Event::from_json, parse_json_event (every byte of the output image)
-//@ bounds: one valid text (compact order 1 / 426-byte order 2 with whitespace, two unknown members and deferred content) parsed into a zeroed buffer and into a buffer with arbitrary prior contents: the two events are byte-identical at every index and compare equal
-//@ outside: other texts
-#[kani::proof]
-#[kani::unwind(8)]
-#[kani::stub(core::panic::Location::caller, stub_caller)]
-fn c02_prior_buffer_compact() {
-    prior_buffer(L1);
-}
-#[kani::proof]
-#[kani::unwind(8)]
-#[kani::stub(core::panic::Location::caller, stub_caller)]
-fn c02_prior_buffer_deferred() {
-    prior_buffer(L4);
-}
-fn prior_buffer(text: &[u8]) {
-    let mut za = [0u8; 200];
-    let mut zb: [u8; 200] = kani::any();
-    let a = Event::from_json(text, &mut za);
-    let b = Event::from_json(text, &mut zb);
-    let (ea, eb) = match (a, b) {
-        (Ok((_, x)), Ok((_, y))) => (x, y),
-        (p, q) => {
-            core::mem::forget(p);
-            core::mem::forget(q);
-            panic!("valid text rejected")
-        }
-    };
-    assert!(ea.len() == eb.len());
-    let i: usize = kani::any();
-    kani::assume(i < ea.len());
-    kani::cover!(i == 6);
-    assert!(ea.as_bytes()[i] == eb.as_bytes()[i]);
-}
-
-//@ harness: c02_layouts_and_parts_agree
-//@ tier: quick
-//@ timeout: 2400
-//@ mem: 16
-//@ unwindset: read_sig=66; memchr=12; parse_json_event=12; json_unescape=40; read_id=34; read_pubkey=34; read_hex=66; memcmp.0=34; put_bytes=70; copy_text=600; read_u64=22; read_kind=8; burn_string=26; eat_whitespace=6; burn_number=12; patch_site=24; digits=24; fpatch=24; enc_tags=6
-//@ encodes: Event::from_json, Event::from_parts, Event::eq
-//@ bounds: the same event written as the compact order-1 text and as the 426-byte order-2 text with whitespace, unknown members and deferred content, each parsed into a buffer with arbitrary prior contents, and built with Event::from_parts into a third such buffer: all three images are byte-identical at every index and compare equal
-//@ outside: the texts are concrete (symbolic value bytes are C01's business); other layouts; escape spellings (c02_spellings_agree)
-#[kani::proof]
-#[kani::unwind(8)]
-#[kani::stub(core::panic::Location::caller, stub_caller)]
-fn c02_layouts_and_parts_agree() {
-    let mut o1: [u8; 200] = kani::any();
-    let mut o2: [u8; 200] = kani::any();
-    let mut o3: [u8; 200] = kani::any();
-    let a = Event::from_json(L1, &mut o1);
-    let b = Event::from_json(L4, &mut o2);
-    let (ea, eb) = match (a, b) {
-        (Ok((_, x)), Ok((_, y))) => (x, y),
-        (p, q) => {
-            core::mem::forget(p);
-            core::mem::forget(q);
-            panic!("valid text rejected")
-        }
-    };
-    // the same event from parts
+/// Parse `text` into a buffer with ARBITRARY prior contents and compare the resulting image,
+/// byte by byte, with the reference encoder's image of the parts the text denotes.  One parse
+/// per harness: equality with one fixed image for every prior buffer content is what makes the
+/// binary form canonical across buffers, layouts, spellings and `from_parts` (C19 decides that
+/// `Event::from_parts` writes exactly the reference encoder's image).
+fn image_is_canonical(text: &[u8], content: &[u8]) {
     let pool = [b'e', b'a', b'b', b'p'];
     let shape: [&[usize]; 3] = [&[1, 2], &[1], &[]];
-    let mut tbuf = [0u8; 32];
-    let tl = enc_tags(&shape, &pool, &mut tbuf);
-    let ts: &[u8] = &tbuf[..tl];
-    let tags: &Tags = unsafe { &*(ts as *const [u8] as *const Tags) };
-    let content = [b'h', b'i', b'\n'];
-    let c = Event::from_parts(Id::from_bytes(ID_BIN), Kind::from_u16(30023), Pubkey::from_bytes(PK_BIN), Sig::from_bytes(SIG_BIN),
-                              tags, Time::from_u64(1681778790), &content, &mut o3);
-    let ec = match c {
-        Ok(x) => x,
+    let mut reference = [0u8; 200];
+    let n = enc_event_img(30023, 1681778790, &ID_BIN, &PK_BIN, &SIG_BIN, &shape, &pool, content, &mut reference);
+    let mut out: [u8; 200] = kani::any();
+    match Event::from_json(text, &mut out) {
+        Ok((_, ev)) => {
+            assert!(ev.len() == n);
+            let k: usize = kani::any();
+            kani::assume(k < n);
+            kani::cover!(k == 7);
+            assert!(ev.as_bytes()[k] == reference[k]);
+        }
         Err(e) => {
             core::mem::forget(e);
-            panic!("from_parts failed")
-        }
-    };
-    assert!(ea.len() == eb.len() && ea.len() == ec.len());
-    let k: usize = kani::any();
-    kani::assume(k < ea.len());
-    kani::cover!(k == 7);
-    assert!(ea.as_bytes()[k] == eb.as_bytes()[k]);
-    assert!(ea.as_bytes()[k] == ec.as_bytes()[k]);
-}
-
-//@ harness: c02_spellings_agree
-//@ tier: quick
-//@ timeout: 1800
-//@ mem: 14
-//@ unwindset: read_sig=66; memchr=12; parse_json_event=12; json_unescape=40; read_id=34; read_pubkey=34; read_hex=66; memcmp.0=34; copy_text=600; read_u64=22; read_kind=8; burn_string=26; eat_whitespace=6; burn_number=12; patch_site=24; digits=24; fpatch=24; put_bytes=70; enc_tags=6
-//@ encodes: json_unescape, read_content, Event::from_json
-//@ bounds: two compact texts that differ only in how the content string is spelled (every character escaped as \uXXXX or two-character escape vs. written literally), parsed into buffers with arbitrary prior contents: byte-identical
-#[kani::proof]
-#[kani::unwind(8)]
-#[kani::stub(core::panic::Location::caller, stub_caller)]
-fn c02_spellings_agree() {
-    let mut o1: [u8; 200] = kani::any();
-    let mut o2: [u8; 200] = kani::any();
-    let a = Event::from_json(SP_A, &mut o1);
-    let b = Event::from_json(SP_B, &mut o2);
-    let (ea, eb) = match (a, b) {
-        (Ok((_, x)), Ok((_, y))) => (x, y),
-        (p, q) => {
-            core::mem::forget(p);
-            core::mem::forget(q);
             panic!("valid text rejected")
         }
-    };
-    assert!(ea.len() == eb.len());
-    let k: usize = kani::any();
-    kani::assume(k < ea.len());
-    kani::cover!(k == 7);
-    assert!(ea.as_bytes()[k] == eb.as_bytes()[k]);
+    }
 }
+
+macro_rules! canonical {
+    ($name:ident, $T:ident, $content:expr) => {
+        #[kani::proof]
+        #[kani::unwind(8)]
+        #[kani::stub(core::panic::Location::caller, stub_caller)]
+        fn $name() {
+            image_is_canonical($T, $content);
+        }
+    };
+}
+
+//@ harness: c02_image_compact c02_image_unknown_first c02_image_spelling_literal c02_image_spelling_escaped
+//@ tier: quick
+//@ timeout: 1200
+//@ mem: 12
+//@ unwindset: read_sig=66; memchr=12; parse_json_event=12; json_unescape=40; read_id=34; read_pubkey=34; read_hex=66; memcmp.0=34; copy_text=600; read_u64=22; read_kind=8; burn_string=26; eat_whitespace=6; burn_number=12; patch_site=24; digits=24; fpatch=24; put_bytes=70; enc_tags=6
+//@ encodes: Event::from_json, parse_json_event (every byte of the output image incl. the padding bytes, the tag offsets and empty-tag counts), json_unescape
+//@ bounds: four constant texts denoting the same event up to content - compact order 1; the same preceded by an unknown member; content "a\n/\u00e9\"" spelled literally and spelled entirely with \uXXXX / two-character escapes - each parsed into a 200-byte buffer with ARBITRARY prior contents: the image equals the reference encoder's image of the denoted parts at every index (so it does not depend on the buffer, the layout or the spelling, and equals what from_parts builds, cf. C19)
+//@ outside: the texts are constant (C01 header); other layouts
+canonical!(c02_image_compact, L1, b"hi\n");
+canonical!(c02_image_unknown_first, L5, b"hi\n");
+canonical!(c02_image_spelling_literal, SP_A, b"a\n/\xc3\xa9\"");
+canonical!(c02_image_spelling_escaped, SP_B, b"a\n/\xc3\xa9\"");
 
 /// reference escaper for one ASCII byte (NIP-01 canonical escapes), returns the length
 fn ref_escape(c: u8, out: &mut [u8; 6]) -> usize {
@@ -160,7 +90,7 @@ fn ref_escape(c: u8, out: &mut [u8; 6]) -> usize {
 }
 
 //@ harness: c02_as_json_roundtrip
-//@ tier: quick
+//@ tier: thorough
 //@ timeout: 3000
 //@ mem: 20
 //@ unwindset: read_sig=66; memchr=12; parse_json_event=12; json_unescape=40; read_id=34; read_pubkey=34; read_hex=66; memcmp.0=34; write_hex=66; as_json=70; push=130; c02_as_json=130; extend=140; json_escape=8; copy_text=600; read_u64=22; read_kind=8; burn_string=26; eat_whitespace=6; burn_number=12; patch_site=24; digits=24; fpatch=24; put_bytes=70; enc_tags=6
@@ -233,3 +163,12 @@ fn c02_as_json_roundtrip() {
     assert!(ev2.as_bytes()[k] == img[k]);
     core::mem::forget(json);
 }
+
+//@ harness: c02_image_deferred_ws_unknown
+//@ tier: thorough
+//@ timeout: 3000
+//@ mem: 16
+//@ unwindset: read_sig=66; memchr=12; parse_json_event=12; json_unescape=40; read_id=34; read_pubkey=34; read_hex=66; memcmp.0=34; copy_text=600; read_u64=22; read_kind=8; burn_string=26; eat_whitespace=6; burn_number=12; patch_site=24; digits=24; fpatch=24; put_bytes=70; enc_tags=6
+//@ encodes: Event::from_json, parse_json_event (deferred content)
+//@ bounds: the same event written in order 2 with whitespace, two unknown members and deferred content (426 bytes), arbitrary prior buffer: image equals the reference image
+canonical!(c02_image_deferred_ws_unknown, L4, b"hi\n");
